@@ -349,6 +349,39 @@ func runC14(args []string) error {
 			}
 		}
 		// oracles
+		{
+			// a table cannot be deleted more often than it came into existence (created, or restored into existence)
+			made, gone := map[string]int{}, map[string]int{}
+			cur := map[int]string{}
+			for _, t := range trace {
+				var a int
+				var rest string
+				if n, _ := fmt.Sscanf(t, "m%d.", &a); n == 1 && strings.Contains(t, ".") && !strings.Contains(t, ":") {
+					rest = t[strings.Index(t, ".")+1:]
+					if i := strings.Index(rest, "("); i >= 0 {
+						key := strings.TrimSuffix(strings.SplitN(rest[i+1:], ")", 2)[0], "")
+						if !strings.HasPrefix(key, "sys/") && key != "*" && key != "" {
+							cur[a] = key
+						}
+					}
+					continue
+				}
+				if n, _ := fmt.Sscanf(t, "m%d:", &a); n == 1 {
+					res := t[strings.Index(t, ":")+1:]
+					switch {
+					case strings.HasPrefix(res, "created-"), strings.HasPrefix(res, "restored-"):
+						made[cur[a]]++
+					case res == "deleted":
+						gone[cur[a]]++
+					}
+				}
+			}
+			for name, g := range gone {
+				if g > made[name] {
+					sum.violate(sum.Evaluations, "a table is reported deleted more often than it came into existence", map[string]any{"schedule": d, "table": name}, fmt.Sprintf("%d successful deletions, %d creations/restores", g, made[name]))
+				}
+			}
+		}
 		ids := map[uint64]bool{}
 		for i, c := range created {
 			if ids[c.id] {
